@@ -47,6 +47,26 @@ Example C12_ids_from_statistic_refuted :
   snd (arun false ainit [Batch [(40, 1)]; ResetStats; Batch [(40, 3)]]) = [(0, [(0, 40)]); (1, [(1, 40)])].
 Proof. exact ids_from_statistic_refuted. Qed.
 
+(* ... and over histories in which Produce calls fail half-way (the IPC write of a record returns an error: nothing is
+   emitted, every sub-stream is restarted): the ids of the emitted batches still count up by one; a failed call that consumes
+   an id is refuted. *)
+Theorem C12_batch_ids_with_failures : forall h a1 outs,
+  arun2 false ainit h = (a1, outs) -> map fst outs = map N.of_nat (seq 0 (length outs)).
+Proof.
+  intros h a1 outs H. rewrite (emitted_batch_ids_consecutive h ainit a1 outs H). apply map_ext. intros i. cbn. lia.
+Qed.
+Print Assumptions C12_batch_ids_with_failures.
+
+Theorem C12_failed_call_restarts_streams : forall a ps a1 o,
+  acall2 false a (Failed ps) = (a1, o) -> streams (core a1) = [] /\ next_sid (core a) <= next_sid (core a1) /\ o = None.
+Proof. exact failed_restarts_streams. Qed.
+Print Assumptions C12_failed_call_restarts_streams.
+
+Example C12_failed_call_eats_id_refuted :
+  map fst (snd (arun2 true ainit [Call (Batch [(40, 1)]); Failed [(40, 1); (41, 2)]; Call (Batch [(40, 1)])])) = [0; 2] /\
+  snd (arun2 false ainit [Call (Batch [(40, 1)]); Failed [(40, 1); (41, 2)]; Call (Batch [(40, 1)])]) = [(0, [(0, 40)]); (1, [(2, 40)])].
+Proof. exact failed_call_eats_id_refuted. Qed.
+
 (* non-vacuity: spans (type 40) change schema in the third batch; the attrs stream (41) keeps its id *)
 Example C12_example :
   snd (prun pinit [[(40, 1); (41, 2)]; [(40, 1); (41, 2)]; [(40, 3); (41, 2)]; [(30, 4)]]) =
